@@ -62,7 +62,19 @@ fn parse<'a>(tok: &mut std::slice::Iter<'a, &'a str>, w: &mut Walk) -> Option<No
             };
             let boundary = *tok.next()?;
             let n: usize = tok.next()?.parse().ok()?;
-            let mut b = MultiPart::builder().kind(kind);
+            // lower-case kinds go through the shortcut constructors (`MultiPart::mixed()` ...), upper-case ones through
+            // `builder().kind(..)`
+            let mut b = if with_id {
+                MultiPart::builder().kind(kind)
+            } else {
+                match kind {
+                    MultiPartKind::Mixed => MultiPart::mixed(),
+                    MultiPartKind::Alternative => MultiPart::alternative(),
+                    MultiPartKind::Related => MultiPart::related(),
+                    MultiPartKind::Encrypted { protocol } => MultiPart::encrypted(protocol),
+                    MultiPartKind::Signed { protocol, micalg } => MultiPart::signed(protocol, micalg),
+                }
+            };
             if with_id {
                 b = b.header(lettre::message::header::ContentId::from(String::from("<part@example.org>")));
             }
